@@ -631,11 +631,13 @@ func evalAggregateFunction(ctx context.Context, scope *ReferenceScope, expr pars
 		}
 
 		listExpr := expr.Args[0]
-		if _, ok := listExpr.(parser.AllColumns); ok {
+		_, allColumns := listExpr.(parser.AllColumns)
+		if allColumns {
 			listExpr = parser.NewIntegerValue(1)
 		}
 
-		if uname == "COUNT" {
+		// The number of records is the count of a literal only when duplicates are not removed.
+		if uname == "COUNT" && (allColumns || !expr.IsDistinct()) {
 			if pt, ok := listExpr.(parser.PrimitiveType); ok {
 				v := pt.Value
 				if !value.IsNull(v) && !value.IsUnknown(v) && scope.Records[0].IsInRange() {
